@@ -274,3 +274,63 @@ Theorem entry_retain_overwrites_first_input_refuted :
   (exists H' b, entry_seq (entry_p false body) H0 None [(true, a1); (true, a2)] = ROk (H', b) /\
                 store_of H' 0 = [1;2;3;4]%Z /\ store_of H' 2 = [5;6;7;8]%Z).
 Proof. exact entry_retain_refuted. Qed.
+
+(* ====================================================================== round 3: slice identities, jets *)
+From Coq Require Import Floats.
+From ADV Require Import C12.ModelId C12.ProofsId C12.ModelJ C12.ProofsJ C12.ProofsRefuted3 C12.Corr.
+Section Round3.
+Context {A : Type} (F : Fl A) (r32 : A -> A).
+
+(* (1) FOOTPRINTS WITH SLICE IDENTITIES (ModelId.v: every register maps to the ids of the backing arrays of its
+   Derivative, of its Hessian row headers and of EVERY Hessian row; Alloc keeps them or takes fresh ones).
+   EVERY instruction of C01's table (typed and generic spellings are the same instructions), from ANY state that
+   satisfies the invariant: afterwards ids are below the counter, no slice occurs twice, the slice footprints of
+   two different registers are disjoint; registers the instruction does not write keep their identities; every
+   identity of a written register is its own old one or a fresh one — never another register's. *)
+Theorem every_instruction_keeps_slices_apart : forall (i : instr A) s iw s' iw',
+  iwf iw -> id_exec F r32 i (s, iw) = Ok (s', iw') -> id_step_ok (writes i) iw iw'.
+Proof. exact (id_exec_ok F r32). Qed.
+(* the same statement as scalar_clone_fresh, for every COPYING instruction (ISet = Set/SET, IMin, IMax = MIN/MAX,
+   IAbs, IABSc = Abs/ABS, ILogAdd, ILogSub = LOGADD/LOGSUB with their operand-copying short cuts): the receiver's
+   footprint — value cell (the register), derivative slice, Hessian header slice, each Hessian row — is disjoint
+   from the footprint of every operand that is not the receiver or a named temporary, and that operand keeps its
+   identities *)
+Theorem copying_instruction_receiver_footprint_disjoint : forall (i : instr A) c ops s iw s' iw' a,
+  copying i = Some (c, ops) -> iwf iw -> id_exec F r32 i (s, iw) = Ok (s', iw') -> In (Rg a) ops -> ~ In a (writes i) ->
+  disjoint [c] [a] /\ disjoint (ir_ids (iw_ids iw' c)) (ir_ids (iw_ids iw' a)) /\ iw_ids iw' a = iw_ids iw a.
+Proof. exact (copying_receiver_disjoint F r32). Qed.
+(* ALL histories of the world of ModelS (New, Clone, As-conversions, Slice, Append, every scalar instruction,
+   the vector loops) from the empty world: two live scalars never share a backing array *)
+Theorem no_history_shares_a_slice : forall ops (w : SW A) iw,
+  id_srun F r32 (sinit F) iinit ops = Ok (w, iw) -> iwf iw.
+Proof. intros ops w iw E. eapply (iwf_id_srun F r32); [exact iwf_init | exact E]. Qed.
+
+(* (2) nullScalar ON JETS and the iterator exception.  For every carrier with 0.0 == 0.0: the coded test (order
+   guards, FULL square scan of the Hessian) answers true exactly for the jets all of whose slots are zero *)
+Theorem nullScalar_is_null_on_jets : feq F (C01.Model.zero F) (C01.Model.zero F) = true -> forall r : Reg A, null_coded F r = null_jet F r.
+Proof. exact (null_coded_is_null_jet F). Qed.
+(* a complete iterator loop over a sparse vector of jets (skip() deletes what nullScalar reports) keeps the
+   observation of every slot (value, d[k], h[k][l]) at every position; it drops ONLY entries whose whole jet is
+   zero and keeps every entry with a non-zero slot *)
+Theorem sparse_jet_iteration_keeps_observation : feq F (C01.Model.zero F) (C01.Model.zero F) = true -> forall v : jvec,
+  NoDup (map fst v) -> forall i sl, oeq F (jobs F (jiterate (null_coded F) v) i sl) (jobs F v i sl).
+Proof. exact (jiterate_keeps_observation F). Qed.
+Theorem sparse_jet_iteration_drops_only_null_jets : feq F (C01.Model.zero F) (C01.Model.zero F) = true -> forall (v : jvec) e,
+  In e v -> ~ In e (jiterate (null_coded F) v) -> null_jet F (snd e) = true.
+Proof. exact (jiterate_drops_only_null F). Qed.
+End Round3.
+
+(* the two seeded regressions of round 3 as models *)
+Theorem shared_hessian_rows_break_invariant_refuted :
+  exists iw, sh_iw2 = Some iw /\ exists x, In x (ir_h (iw_ids iw 1)) /\ In x (ir_h (iw_ids iw 0)) /\ ~ iwf iw.
+Proof. exact shared_rows_break_invariant_refuted. Qed.
+Theorem nullScalar_without_diagonal_refuted :
+  null_triangle FlP diag_jet = true /\ null_jet FlP diag_jet = false /\ null_coded FlP diag_jet = false /\
+  jiterate (null_triangle FlP) [(3%Z, diag_jet)] = [] /\
+  jobs FlP [(3%Z, diag_jet)] 3%Z (SH 0 0) = 2%float /\
+  jobs FlP (jiterate (null_triangle FlP) [(3%Z, diag_jet)]) 3%Z (SH 0 0) = 0%float /\
+  jiterate (null_coded FlP) [(3%Z, diag_jet)] = [(3%Z, diag_jet)].
+Proof. exact null_triangle_drops_diagonal_jet_refuted. Qed.
+(* the hypotheses are satisfiable: binary64 has 0.0 == 0.0, and the invariant holds at the start *)
+Example round3_hypotheses_satisfiable : feq FlP (C01.Model.zero FlP) (C01.Model.zero FlP) = true /\ iwf iinit.
+Proof. split; [vm_compute; reflexivity | exact iwf_init]. Qed.
